@@ -24,6 +24,7 @@ def dispatch (line : String) : String :=
   | op :: f =>
     let r := match op with
       | "c01" => handleC01 f
+      | "c01ds" => handleC01ds f
       | "c02" => handleC02 f
       | "c03" => handleC03 f
       | "c04" => handleC04 f
